@@ -164,6 +164,19 @@ def run_case(case):
             continue
         add("productmap_calls")
         compare(got, expected(coef, vals, sub, layout), out, res, f"productmap({src.splitlines()[0]} variables={sub})", add)
+        # the caller's list of names is an argument like any other: it must come back unchanged,
+        # and a second dispatcher built from the SAME list object must give the same axes
+        if sub != [x[0] for x in layout]:
+            res["violations"].append({"key": "productmap_mutates_argument", "what": f"productmap changed the caller's list of variables from {[x[0] for x in layout]} to {sub}"})
+            sub[:] = [x[0] for x in layout]
+        elif len(sub) >= 2 and rng.random() < 0.5:
+            try:
+                got2 = call_kw(D.productmap(f, sub), vals)
+                add("productmap_calls")
+                add("dispatchers_built_twice_from_one_list")
+                compare(got2, expected(coef, vals, sub, layout), out, res, f"second productmap built from the same list object {sub}", add)
+            except Exception as e:  # noqa: BLE001
+                res["violations"].append({"key": pipeline.exc_key(e, "productmap_second") + f"|kinds={'-'.join(sorted(set(kinds)))}", "what": pipeline.exc_text(e)})
     # duplicates are rejected
     if n >= 1:
         try:
@@ -206,6 +219,16 @@ def run_case(case):
             continue
         add("spacemap_calls")
         compare(got, expected(coef, vals, dense + sparse, layout), out, res, f"spacemap({src.splitlines()[0]} dense={dense} sparse={sparse} put_dense_first={first})", add)
+        if dense != [x[0] for x in layout_d] or (sparse and sparse != layout_s[0]):
+            res["violations"].append({"key": "spacemap_mutates_argument", "what": f"spacemap changed the caller's lists: dense {[x[0] for x in layout_d]} -> {dense}, sparse {layout_s} -> {sparse}"})
+        elif len(dense) >= 2:
+            try:
+                got2 = call_kw(D.spacemap(f, dense_vars=dense, sparse_vars=sparse, put_dense_first=first), vals)
+                add("spacemap_calls")
+                add("dispatchers_built_twice_from_one_list")
+                compare(got2, expected(coef, vals, dense + sparse, layout), out, res, f"second spacemap built from the same list objects dense={dense}", add)
+            except Exception as e:  # noqa: BLE001
+                res["violations"].append({"key": pipeline.exc_key(e, "spacemap_second") + f"|kinds={'-'.join(sorted(set(kinds)))}", "what": pipeline.exc_text(e)})
     if n >= 2:
         try:
             D.spacemap(f, dense_vars=[names[0]], sparse_vars=[names[0]], put_dense_first=True)
